@@ -28,7 +28,7 @@ set_option linter.all false
 
 open EPV EPV.Gen EPV.Model EPV.Spec.Riemann EPV.Riem
 
-namespace EPV.C03
+namespace EPV.C03.Riemann
 
 /-! ### ideal gas: the closure functions -/
 
@@ -218,4 +218,4 @@ theorem jwl_sound_sq (c : Jwl) (hc : c.Regular) (p ρ : ℝ) (hρ : ρ ≠ 0)
 example : (⟨632.1, -0.04472, 11.3, 1.13, 1.905, 1.8938⟩ : Jwl).Regular := by
   unfold Jwl.Regular; norm_num
 
-end EPV.C03
+end EPV.C03.Riemann
